@@ -236,6 +236,11 @@ def _mk_opt(a):
 class EstCapture:
     """records (model factor matrices, value) of every FUNCTION estimate the solver computes (epoch boundaries)"""
 
+    def __init__(self, script=None):
+        # script: the values the FUNCTION estimates of this solve answer, in call order (start, epoch 1, epoch 2, ...): the estimator is
+        # an input of the solver's bookkeeping (Alg/C13Solver.v: `fest`), so every history of epoch outcomes can be enumerated
+        self.script = script
+
     def __enter__(self):
         from pyttb.gcp import optimizers
         self.mod = optimizers
@@ -246,6 +251,8 @@ class EstCapture:
         def wrapped(model, data_subs, data_vals, weights, function_handle=None, gradient_handle=None, lambda_check=True, crng=None):
             r = cap.orig(model, data_subs, data_vals, weights, function_handle, gradient_handle, lambda_check, crng)
             if function_handle is not None and gradient_handle is None:
+                if cap.script is not None and len(cap.rec) < len(cap.script):
+                    r = float(cap.script[len(cap.rec)])
                 cap.rec.append(([f.copy() for f in model.factor_matrices], float(r)))
             return r
         optimizers.estimate = wrapped
@@ -264,7 +271,7 @@ def run_solve(a):
     np.random.seed(a["seed"])
     init_copy = [f.copy() for f in M0.factor_matrices]
     start_ok = True
-    with EstCapture() as cap:
+    with EstCapture(a.get("script")) as cap:
         if a.get("via") == "gcp_opt":
             import pyttb as ttb
             ini, given_w = _driver_init(np, ttb, a, M0)
@@ -625,7 +632,8 @@ def _lb_one_solve(np, optimizers, fg, opt, a, seen, user_cb):
             "cb_calls": int(rec["cb"].iter), "trace_len": int(len(rec["cb"].time_trace)),
             "init_unchanged": all(np.array_equal(x, y) for x, y in zip(init.factor_matrices, M0.factor_matrices)),
             "shapes_ok": [f.shape for f in res.factor_matrices] == [f.shape for f in M0.factor_matrices],
-            "abandoned": int(info.get("warnflag", -1)) == 2 and "LNSRCH" in _task(info)}
+            "abandoned": int(info.get("warnflag", -1)) == 2 and "LNSRCH" in _task(info),
+            "opts": rec["opts"], "size": int(math.prod(a["shape"]))}
 
 
 class ScipySpy:
@@ -646,7 +654,10 @@ class ScipySpy:
             opt = spy.opt_ref[0]
             rec = {"x0": np.array(x0, dtype=float).copy(), "bounds": list(bounds), "cb": kw.get("callback"),
                    "slot_during": opt._solver_kwargs.get("callback"), "none_passed": any(v is None for v in kw.values()),
-                   "approx_grad": approx_grad, "fprime": fprime}
+                   "approx_grad": approx_grad, "fprime": fprime,
+                   # every keyword handed to scipy, raw: numbers as exact rationals, the callback slot as "is it the Monitor"
+                   "opts": [[k, "cb", bool(isinstance(v, optimizers.LBFGSB.Monitor))] if k == "callback" or callable(v)
+                            else [k, "num", _fr(v)] for k, v in kw.items() if v is not None]}
             r = spy.orig(func, x0, fprime=fprime, approx_grad=approx_grad, bounds=bounds, **kw)
             rec["final_vector"], rec["final_f"] = np.array(r[0], dtype=float).copy(), float(r[1])
             spy.seen.append(rec)
@@ -700,13 +711,37 @@ def run_lbfgsb_reuse(a):
             try:
                 with ScipySpy([opt]) as spy:
                     o = _lb_one_solve(np, optimizers, fg, opt, p, spy.seen, None)
-                sink.append({"flat": [o["final_f"]] + [v for f in o["factors"] for row in f for v in row],
+                sink.append({"opts": o["opts"], "size": o["size"],
+                             "flat": [o["final_f"]] + [v for f in o["factors"] for row in f for v in row],
                              "le": Fraction(o["f_end"]) <= Fraction(o["f0"]), "f_end": o["f_end"], "f0": o["f0"],
                              "abandoned": o["abandoned"]})
             except Exception as ex:
                 sink.append({"exc": type(ex).__name__, "msg": str(ex)[:120]})
     return {"reused": reused, "fresh": fresh, "restored": _restored(shared, before, None),
             "meta": {"abandoned": any(r.get("abandoned") for r in reused + fresh)}}
+
+
+def g_ctor(opts, callback):
+    """the constructor call of a case as the Coq record q_ctor (Alg/C13Opts.v): m factr pgtol maxfun maxiter maxls, callback given?
+    factr / maxiter carry the constructor's own defaults (1e7 / 1000) when the case does not set them"""
+    from vcheck import gq, gbool
+    o = dict(opts)
+    o.setdefault("factr", 1e7)
+    o.setdefault("maxiter", 1000)
+    f = lambda k: "None" if o.get(k) is None else f"(Some {gq(Fraction(float(o[k])))})"
+    return f"(q_ctor {f('m')} {f('factr')} {f('pgtol')} {f('maxfun')} {f('maxiter')} {f('maxls')} {gbool(bool(callback))})"
+
+
+def g_opts_seen(seen):
+    """the recorded keyword dictionaries of a sequence of solves as list (list (string * oval))"""
+    from vcheck import gq, gbool
+    keys = ("m", "factr", "pgtol", "epsilon", "iprint", "disp", "maxfun", "maxiter", "callback", "maxls")
+    def one(d):
+        if not d:
+            return "no_entries"
+        return "[" + "; ".join(f"oentry K_{k if k in keys else 'other'} (" + (f"VCb {gbool(v)}" if kind == "cb" else f"VNum {gq(Fraction(v))}") + ")"
+                               for k, kind, v in d) + "]"
+    return "(@nil oentries)" if not seen else "[" + "; ".join(one(d) for d in seen) + "]"
 
 
 def lb_scale(outs):
@@ -881,6 +916,22 @@ def oracle(op, a, o):
 
 
 # --------------------------------------------------------------------------------------- witnesses of the findings
+
+
+def weak_orderings(n):
+    """every sequence of length n over 0..k-1 that uses all of 0..k-1 (k = 1..n): one representative of every relative order, ties
+    included, of n estimates"""
+    out = []
+    def rec(prefix):
+        if len(prefix) == n:
+            k = max(prefix) + 1
+            if set(prefix) == set(range(k)):
+                out.append(list(prefix))
+            return
+        for v in range(n):
+            rec(prefix + [v])
+    rec([])
+    return out
 
 
 def rand_witness_problem():
